@@ -252,7 +252,7 @@ func runC03(c *h.Ctx) {
 	// (3) random abstract paths x random spellings
 	r := c.Rand("c03")
 	g := &gen.G{R: r, C: c03Cfg()}
-	n := c.PerShard(c.N(200000, 4000000))
+	n := c.PerShard(c.N(2000000, 20000000))
 	for i := 0; i < n; i++ {
 		ap := g.Path()
 		decorate(r, ap)
